@@ -21,16 +21,17 @@ func (nopLogger) Debug(string, ...any) {}
 
 // Level configurations of a C17 chain.
 const (
-	lvNothing     = iota // only the child directory
-	lvBefore             // + a file sorting before "spokfile"
-	lvAfter              // + a file sorting after
-	lvBoth               // + both
-	lvSpokfile           // a regular file "spokfile"
-	lvSpokBefore         // regular spokfile + an earlier entry
-	lvDirSpok            // a directory named "spokfile"
-	lvDirSpokDeep        // directory "spokfile" holding a regular "spokfile", plus a later entry
-	lvCaseVariant        // a regular file "Spokfile" (different case): an ordinary other entry
-	lvCaseBoth           // "Spokfile" next to the real "spokfile"
+	lvNothing       = iota // only the child directory
+	lvBefore               // + a file sorting before "spokfile"
+	lvAfter                // + a file sorting after
+	lvBoth                 // + both
+	lvSpokfile             // a regular file "spokfile"
+	lvSpokBefore           // regular spokfile + an earlier entry
+	lvDirSpok              // a directory named "spokfile"
+	lvDirSpokDeep          // directory "spokfile" holding a regular "spokfile", plus a later entry
+	lvCaseVariant          // a regular file "Spokfile" (different case): an ordinary other entry
+	lvCaseBoth             // "Spokfile" next to the real "spokfile"
+	lvSpokThenLater        // a regular spokfile, then (created after it) entries sorting after it
 	nLevelCfg
 )
 
@@ -43,6 +44,9 @@ type FindCase struct {
 	// ViaSymlink (binary leg only): HOME and the working directory are spelled through a
 	// symbolic link that points at the stop directory
 	ViaSymlink bool `json:"via_symlink,omitempty"`
+	// StalePWD (binary leg only): the environment variable PWD names another level of the chain
+	// than the directory the process is started in (make -C, env -C, exec with Dir but old Env)
+	StalePWD int `json:"stale_pwd,omitempty"` // level + 1; 0 = PWD is accurate
 }
 
 func (c FindCase) dirs(base string) []string {
@@ -84,6 +88,15 @@ func (c FindCase) build(base string) error {
 			}
 		case lvDirSpok:
 			err = os.Mkdir(filepath.Join(d, "spokfile"), 0o755)
+		case lvSpokThenLater:
+			// creation order matters on file systems whose raw listing is not sorted
+			if err = w(d, "spokfile"); err == nil {
+				if err = w(d, "zz.txt"); err == nil {
+					if err = w(d, "tests.txt"); err == nil {
+						err = os.Mkdir(filepath.Join(d, "vendor"), 0o755)
+					}
+				}
+			}
 		case lvCaseVariant:
 			err = w(d, "Spokfile")
 		case lvCaseBoth:
